@@ -732,7 +732,7 @@ func propC16(c *Ctx) {
 			got := relationalRejections(c, vgf, PO{Params: []string{"data", "ac"}, Visits: 3, NoInline: []string{"BridgeConfig).Validate", "Output).Validate", "Params).Validate", "BridgeInfo).Validate"}})
 			for _, k := range sortedKeys(got) {
 				orr.Sites++
-				if !pinnedRelationalRejections[m.label][k] {
+				if !pinnedRelationalRejections[m.label][k] && !(m.label == "opchild" && dupConsKeyRejection(k)) {
 					orr.Fail(got[k], "new relational rejection in ValidateGenesis: "+trunc(k, 220)+" - an exported state that violates it would not re-import (confirm the invariant and pin it)", nil)
 				}
 			}
@@ -1046,6 +1046,16 @@ var pinnedRelationalRejections = map[string]map[string]bool{
 		"data.Bridges[#].BatchInfos[(builtin.len(data.Bridges[#].BatchInfos) - 1)].BatchInfo {<,>} data.Bridges[#].BridgeConfig.BatchInfo": true,
 	},
 	"opchild": {},
+}
+
+// dupConsKeyRejection: (opchild) two validator records of the genesis file carry the same
+// consensus key (the scratch-map duplicate check of validateGenesisStateValidators, now seen as
+// the key equality it is).  Confirmed by reading: AddValidator refuses a consensus key that
+// resolves in the by-consensus-address index and the record and index writers are paired
+// (C13.R2); the executor-change path that can break the pairing is known finding D6 (C14.R5).
+func dupConsKeyRejection(k string) bool {
+	parts := strings.Split(k, " {=} ")
+	return len(parts) == 2 && parts[0] == parts[1] && strings.Contains(parts[0], "data.Validators[#].ConsensusPubkey") && strings.Contains(parts[0], "PubKey).Bytes(")
 }
 
 // pathsWithFallback enumerates fn under po; when the bounded enumeration overflows (the two
